@@ -230,6 +230,10 @@ func (a *Agg) SortedSet(name string) []string {
 	return out
 }
 
+// AuxCmds are helper subcommands (`vcheck aux <name> ...`) used by monitors
+// that need separate OS processes.
+var AuxCmds = map[string]func(args []string) int{}
+
 var registry = map[string]*Prop{}
 
 // Register adds a property monitor.
